@@ -5,6 +5,10 @@ R05.2 the LTE root function: entropy-branch matching -> shock integration -> Tn 
 R05.3 sentinel table (1 <-> mismatch positive at the top of the window or failed matching; 0 <-> negative at the bottom); flag typestate
 R05.4 manager and wall solver obtain the LTE velocity from the same routine
 R05.5 template model: sentinel conditions and shooting function of its own LTE solver
+
+Recognition is by role: nested functions are "the function handed to root / root_scalar", the window ends are "the local that starts at
+self.vMin / just below self.vJ", the mismatches are "the local assigned from <root function>(<window end>)", sentinels are decided on the
+control-flow graph (which branch of which test can reach the return), expressions are compared through normal forms / terms.
 """
 from __future__ import annotations
 
@@ -15,131 +19,203 @@ import sympy as sp
 from ..core import AnchorMissing, Check, Undecided, calls_in, dotted, kwarg, own_nodes, src, walk_guarded
 from ..flow import CFG, reads_of
 from ..hydro import HY, TM, drop_ite, fn, hydro_extractor, junction_terms, n, th
+from ..nf import Ctx, eqx, has, match, same
 from ..terms import Extractor, is_zero
+from .c02 import _solver_function
+from .c06 import _local_func, _only_when, _pol, _stores
 
 LEVEL = "other"
+
+
+def _is_const(e, value) -> bool:
+    return isinstance(e, ast.Constant) and not isinstance(e.value, bool) and isinstance(e.value, (int, float)) and e.value == value
 
 
 def r05_1(chk: Check):
     S = chk.src
     ex, fj, vpvm, vpovm = junction_terms(S)
-    fm = S.func(f"{HY}.matchDeflagOrHyb.matching")
+    fo = S.func(f"{HY}.matchDeflagOrHyb")
+    fm, _ = _solver_function(S, fo, ("root",), "fun")
     chk.touch(fm.name)
+    po = [p for p in fo.params() if p != "self"]
+    if len(po) != 2 or len(fm.params()) != 1:
+        raise AnchorMissing("matchDeflagOrHyb(vw, vp) / its one-argument residual: parameter lists changed")
+    VW, VP = po
     exm = hydro_extractor(S)
-    ps = [p for p in exm.paths(fm, None, {"vp": None}) if p.raised is None]
+    X = exm.sym("mappedTpTm")
+    ps = [p for p in exm.paths(fm, {fm.params()[0]: X}, {VP: None}) if p.raised is None]
     if len(ps) != 1:
         raise Undecided("matching (entropy branch): expected one path")
     e1, e2 = (drop_ite(x) for x in ps[0].value)
-    c = ps[0].env.get("c")
-    Tpm = fn("_inverseMappingT")(exm.sym("mappedTpTm"))
+    # the common factor of the two residuals (read off the returned terms)
+    common = [f_ for f_ in sp.Mul.make_args(e1) if f_ in set(sp.Mul.make_args(e2))]
+    c = sp.Mul(*common) if common else sp.Integer(1)
+    Tpm = fn("_inverseMappingT")(X)
     T0, T1 = fn("getitem")(Tpm, 0), fn("getitem")(Tpm, 1)
     Tp, Tm = ex.sym("Tp"), ex.sym("Tm")
     A1 = (vpvm * vpovm).subs({Tp: T0, Tm: T1}, simultaneous=True)
     vpsq = sp.simplify(A1 - e1 / c)          # the v+^2 the solver imposes
-    vmsq = sp.Min(exm.sym("vw") ** 2, th("csqLowT")(T1))
+    vmsq = sp.Min(exm.sym(VW) ** 2, th("csqLowT")(T1))
     # T+^2 gamma+^2 == T-^2 gamma-^2
     ok, how = is_zero(T0**2 / (1 - vpsq) - T1**2 / (1 - vmsq), chk.seed)
     chk.ob("R05.1", fm.where(), "inside the matching (vp=None): the imposed v+^2 satisfies T+^2 gamma+^2 == T-^2 gamma-^2 with v-^2 = min(vw^2, cs-^2)",
            ok, f"v+^2 = {vpsq}; {how}"[:300], key="entropy|matching", how=how)
-    # after the solve
-    fo = S.func(f"{HY}.matchDeflagOrHyb")
+    # after the solve: the returned (v+, v-, T+, T-)
     chk.touch(fo.name)
-    cand = []
-    for guards, st in walk_guarded(fo.node):
-        if isinstance(st, ast.Assign) and n(st.targets[0]) == "vp" and any(pol and n(t) == "vp is None" for t, pol in guards if not isinstance(t, tuple)):
-            cand.append(st)
-    cand = [c_ for c_ in cand if "sqrt" in n(c_.value)]
-    if len(cand) != 1:
+    co = Ctx(S, fo)
+    g = CFG(fo.node)
+    rets = [r for r in g.nodes if isinstance(r, ast.Return) and isinstance(r.value, ast.Tuple) and len(r.value.elts) == 4]
+    if len(rets) != 1 or not all(isinstance(e, ast.Name) for e in (rets[0].value.elts[0], rets[0].value.elts[2], rets[0].value.elts[3])):
+        raise AnchorMissing("matchDeflagOrHyb: the returned (v+, v-, T+, T-) not found")
+    r0 = rets[0]
+    VPr, TP, TM_ = r0.value.elts[0].id, r0.value.elts[2].id, r0.value.elts[3].id
+    VMe = r0.value.elts[1]
+    # v+ when it was not given: the assignment(s) to the returned v+ that are reached only when the parameter is None
+    defs = [d for d in g.reaching_defs(r0, VPr) if d is not CFG.ENTRY]
+    cand = [d for d in defs if isinstance(d, ast.Assign)]
+    if not cand or VPr != VP:
         raise AnchorMissing("matchDeflagOrHyb: v+ from entropy conservation after the solve not found")
-    exo = Extractor(S, positive={"Tm", "Tp"})
-    val = exo.expr(cand[0].value, {"__module__": "hydrodynamics", "__class__": "Hydrodynamics"})
-    Tp_, Tm_, vm_ = exo.sym("Tp"), exo.sym("Tm"), exo.sym("vm")
-    ok, how = is_zero(sp.expand(val**2) - (1 - Tp_**2 * (1 - vm_**2) / Tm_**2), chk.seed)
-    chk.ob("R05.1", fo.where(cand[0]), "after the solve: v+ = sqrt(T-^2 - T+^2 (1 - v-^2))/T-, i.e. T+ gamma+ == T- gamma-", ok, how,
-           key="entropy|post-solve", how=how)
+    unguarded = [d for d in defs if not _only_when(g, d, f"{VP} is None", f"{VP} is not None", True)]
+    keep = {TP, TM_} | ({VMe.id} if isinstance(VMe, ast.Name) else set())
+    exo = Extractor(S, positive={TM_, TP})
+    env = {"__module__": "hydrodynamics", "__class__": "Hydrodynamics"}
+    Tp_, Tm_ = exo.sym(TP), exo.sym(TM_)
+    vm_ = exo.sym(VMe.id) if isinstance(VMe, ast.Name) else exo.expr(co.resolve(VMe, keep=keep), dict(env))
+    ok, how = True, ""
+    for d in cand:
+        val = exo.expr(co.resolve(d.value, keep=keep), dict(env))
+        ok_d, how = is_zero(sp.expand(val**2) - (1 - Tp_**2 * (1 - vm_**2) / Tm_**2), chk.seed)
+        ok = ok and bool(ok_d)
+    chk.ob("R05.1", fo.where(cand[0]), "after the solve: v+ = sqrt(T-^2 - T+^2 (1 - v-^2))/T-, i.e. T+ gamma+ == T- gamma-", ok and not unguarded and len(cand) == len(defs),
+           how if not unguarded else f"{how}; v+ is overwritten also when it was given by the caller", key="entropy|post-solve", how=how)
     # that assignment uses the solved temperatures and v- = sqrt(max(min(vw^2, cs^2(T-)), 0))
-    defs = {}
-    for st in own_nodes(fo.node):
-        if isinstance(st, ast.Assign) and isinstance(st.targets[0], ast.Name):
-            defs.setdefault(st.targets[0].id, []).append(st.value)
-    okv = any(n(v_).replace(" ", "") == "min(vw**2,self.thermodynamics.csqLowT(Tm))" for v_ in defs.get("vmsq", [])) and \
-        any(n(v_).replace(" ", "") == "np.sqrt(max(vmsq,0))" for v_ in defs.get("vm", []))
-    chk.ob("R05.1", fo.where(), "after the solve: v- = sqrt(max(min(vw^2, csqLowT(T-)), 0)) with the solved T-", okv, key="vm|post-solve")
+    okv = eqx(VMe, f"np.sqrt(max(min({VW}**2, self.thermodynamics.csqLowT({TM_})), 0))", co)
+    # ... (T+, T-) being the inverse-mapped solution of the 2x2 solve
+    sols = [st.targets[0].id for st in own_nodes(fo.node) if isinstance(st, ast.Assign) and isinstance(st.value, ast.Call) and (dotted(st.value.func) or "").split(".")[-1] == "root"
+            and isinstance(st.targets[0], ast.Name)]
+    tt = [st for st in own_nodes(fo.node) if isinstance(st, ast.Assign) and isinstance(st.targets[0], (ast.List, ast.Tuple)) and [n(e) for e in st.targets[0].elts] == [TP, TM_]]
+    okt = len(sols) == 1 and len(tt) == 1 and eqx(tt[0].value, f"self._inverseMappingT({sols[0]}.x)", co)
+    chk.ob("R05.1", fo.where(), "after the solve: v- = sqrt(max(min(vw^2, csqLowT(T-)), 0)) with the solved T-", okv and okt, key="vm|post-solve")
     chk.floor("R05.1", 3)
+
+
+def _window(S, fi, ex):
+    """(VMIN, VMAX): the locals that start at self.vMin and just below self.vJ"""
+    env = {"__module__": "hydrodynamics", "__class__": "Hydrodynamics"}
+    lo, hi = set(), set()
+    for st in own_nodes(fi.node):
+        if isinstance(st, ast.Assign) and len(st.targets) == 1 and isinstance(st.targets[0], ast.Name):
+            if eqx(st.value, "self.vMin"):
+                lo.add(st.targets[0].id)
+            elif has(st.value, "self.vJ") and not any(isinstance(x, ast.Call) for x in ast.walk(st.value)):
+                try:
+                    d = ex.expr(st.value, dict(env)) - ex.sym("self.vJ")
+                except Exception:
+                    continue
+                if isinstance(d, sp.Basic) and d.is_number and d < 0:
+                    hi.add(st.targets[0].id)
+    return (lo.pop() if len(lo) == 1 else None), (hi.pop() if len(hi) == 1 else None)
 
 
 def r05_23(chk: Check):
     S = chk.src
     fi = S.func(f"{HY}.findvwLTE")
     chk.touch(fi.name)
+    cx = Ctx(S, fi)
     ex = hydro_extractor(S)
-    fd = S.func(f"{HY}.findvwLTE.shockTnuclDiff")
-    val = ex.single(fd)
+    g = CFG(fi.node)
+    # ---- roles
+    rsc = calls_in(fi.node, "root_scalar")
+    rets = [x for x in g.nodes if isinstance(x, ast.Return)]
+    # the root solve whose root is returned -> the Tn-mismatch function; the other one -> the shock-front function
+    main = []
+    for c in rsc:
+        tgt = [st.targets[0].id for st in own_nodes(fi.node) if isinstance(st, ast.Assign) and st.value is c and isinstance(st.targets[0], ast.Name)]
+        if len(tgt) == 1 and any(eqx(r.value, f"float({tgt[0]}.root)") or eqx(r.value, f"{tgt[0]}.root") for r in rets):
+            main.append((c, tgt[0]))
+        elif any(r.value is not None and any(y is c for y in ast.walk(r.value)) for r in rets):
+            main.append((c, None))
+    if len(main) != 1 or not isinstance(kwarg(main[0][0], "f", 0), ast.Name):
+        raise AnchorMissing("findvwLTE: the root solve whose root is returned (on a local function) not found")
+    rs0, SOL = main[0]
+    DIFF = kwarg(rs0, "f", 0).id
+    fd = _local_func(S, fi, DIFF)
+    others = {kwarg(c, "f", 0).id for c in rsc if c is not rs0 and isinstance(kwarg(c, "f", 0), ast.Name)} - {DIFF}
+    if fd is None or len(others) != 1 or _local_func(S, fi, next(iter(others))) is None or len(fd.params()) != 1:
+        raise AnchorMissing("findvwLTE: the Tn-mismatch function and the shock-front function (local functions handed to root_scalar) not found")
+    SHOCK = others.pop()
+    fs = _local_func(S, fi, SHOCK)
     vw = ex.sym("vw")
+    val = ex.single(fd, {fd.params()[0]: vw})
     md = fn("matchDeflagOrHyb")(vw)
     want = fn("solveHydroShock")(vw, fn("getitem")(md, 0), fn("getitem")(md, 2)) - ex.sym("self.Tnucl")
     ok, how = is_zero(val - want, chk.seed)
     chk.ob("R05.2", fd.where(), "LTE root function == solveHydroShock(vw, v+, T+) - Tnucl with (v+, ., T+, .) = matchDeflagOrHyb(vw) "
            "(one argument: v+ fixed by entropy conservation)", ok, f"{val}; {how}", key="root-function", how=how)
-    fs = S.func(f"{HY}.findvwLTE.shock")
-    vals = ex.single(fs)
+    vals = ex.single(fs, {fs.params()[0]: vw})
     wants = fn("getitem")(md, 0) * vw - th("csqHighT")(fn("getitem")(md, 2))
     ok, how = is_zero(vals - wants, chk.seed)
     chk.ob("R05.2", fs.where(), "front-position function == v+ vw - csqHighT(T+) for the entropy-branch matching", ok, f"{vals}; {how}",
            key="front-function", how=how)
     # ---- R05.3 sentinels
-    g = CFG(fi.node)
-    rets = [x for x in g.nodes if isinstance(x, ast.Return)]
-    table = []
-    for guards, st in walk_guarded(fi.node):
-        if isinstance(st, ast.Return):
-            gs = [(n(t) if not isinstance(t, (tuple, ast.ExceptHandler)) else ("except " + n(t.type) if isinstance(t, ast.ExceptHandler) and t.type else "case"), pol)
-                  for t, pol in guards]
-            table.append((n(st.value), gs, st))
-    ones = [t for t in table if t[0] == "1"]
-    zeros = [t for t in table if t[0] == "0"]
-    roots = [t for t in table if t[0] not in ("0", "1")]
-    # names
-    defs = {}
-    for st in own_nodes(fi.node):
-        if isinstance(st, ast.Assign) and isinstance(st.targets[0], ast.Name):
-            defs.setdefault(st.targets[0].id, []).append(st.value)
+    VMIN, VMAX = _window(S, fi, Extractor(S))
+    ones = [r for r in rets if _is_const(r.value, 1)]
+    zeros = [r for r in rets if _is_const(r.value, 0)]
+    roots = [r for r in rets if r not in ones and r not in zeros]
 
-    def is_call(name, arg):
-        return any(isinstance(v, ast.Call) and n(v.func) == "shockTnuclDiff" and n(v.args[0]) == arg for v in defs.get(name, []))
+    def evaluation(at: str | None):
+        """(statement, expression text) of the evaluation of the mismatch at window end `at`: a local assigned DIFF(at), else the call itself"""
+        if at is None:
+            return None, None
+        st = [x for x in g.nodes if isinstance(x, ast.Assign) and len(x.targets) == 1 and isinstance(x.targets[0], ast.Name) and eqx(x.value, f"{DIFF}({at})")]
+        if len(st) == 1 and len(_stores(fi, st[0].targets[0].id)) == 1:
+            return st[0], st[0].targets[0].id
+        return None, f"{DIFF}({at})"
 
-    ok1 = False
-    for val_, gs, st in ones:
-        for gtxt, pol in gs:
-            if pol and gtxt.replace(" ", "") in ("shockTnuclDiffMax>0ornotself.success",):
-                ok1 = is_call("shockTnuclDiffMax", "vmax")
+    evmax, TOP = evaluation(VMAX)
+    evmin, BOT = evaluation(VMIN)
+    COND1 = f"{TOP} > 0 or not self.success" if TOP else None
+    top_ones = [r for r in ones if COND1 and _only_when(g, r, COND1, None, True, cx)]
+    tests1 = [t for t in g.nodes if g.kind.get(t) == "test" and COND1 and _pol(t, COND1, None, cx) is not None]
+    # `iff`: the branch of that test on which the condition holds returns 1 and nothing else
+    ok1 = len(top_ones) >= 1 and len(tests1) == 1 and all(
+        not g.reaches(g.branch(tests1[0], _pol(tests1[0], COND1, None, cx)), r, avoid=lambda q: q is tests1[0]) for r in rets if r not in top_ones)
+    if ok1 and evmax is None:
+        # inline form: the mismatch must be evaluated before the flag is read (left operand of the `or`)
+        t = tests1[0]
+        ok1 = isinstance(t, ast.BoolOp) and has(t.values[0], f"{DIFF}({VMAX})")
     chk.ob("R05.3", fi.where(), "runaway sentinel 1 is returned iff the Tn mismatch at the top of the window is positive or the matching failed",
-           ok1, str([(v_, g_) for v_, g_, _ in ones])[:300], key="sentinel|1")
-    ok_exc = all(any(g_[0].startswith("except ValueError") for g_ in gs) or any(g_[1] and "shockTnuclDiffMax" in g_[0] for g_ in gs) for _, gs, _ in ones)
+           ok1, f"top-of-window mismatch `{TOP}`; {len(top_ones)} guarded return(s)", key="sentinel|1")
+    handlers = [h for h in g.nodes if g.kind.get(h) == "handler" and h.type is not None and eqx(h.type, "ValueError")]
+    ok_exc = all(r in top_ones or any(g.must_pass(CFG.ENTRY, r, lambda q: q is h) for h in handlers) for r in ones)
     chk.ob("R05.3", fi.where(), "every other `return 1` is the no-shock exit of the bracketing (except ValueError)", ok_exc and len(ones) == 2,
            key="sentinel|1-other")
-    ok0 = len(zeros) == 1 and any(pol and gtxt.replace(" ", "") == "shockTnuclDiffMin<0" for gtxt, pol in zeros[0][1]) and is_call("shockTnuclDiffMin", "vmin")
+    COND0 = f"{BOT} < 0" if BOT else None
+    ok0 = len(zeros) == 1 and COND0 is not None and _only_when(g, zeros[0], COND0, f"{BOT} >= 0", True, cx) and evmin is not None
+    if ok0:
+        t0 = [t for t in g.nodes if g.kind.get(t) == "test" and _pol(t, COND0, f"{BOT} >= 0", cx) is not None]
+        ok0 = len(t0) == 1 and all(not g.reaches(g.branch(t0[0], _pol(t0[0], COND0, f"{BOT} >= 0", cx)), r, avoid=lambda q: q is t0[0]) for r in rets if r is not zeros[0])
     chk.ob("R05.3", fi.where(), "static sentinel 0 is returned iff the mismatch is already negative at the smallest allowed velocity", ok0,
-           str([(v_, g_) for v_, g_, _ in zeros])[:300], key="sentinel|0")
-    rs = [c for c in calls_in(fi.node, "root_scalar") if n(c.args[0]) == "shockTnuclDiff"]
-    okr = len(rs) == 1 and n(kwarg(rs[0], "bracket")).strip("()[]").replace(" ", "") == "vmin,vmax" and len(roots) == 1 and "sol.root" in roots[0][0]
+           f"bottom-of-window mismatch `{BOT}`", key="sentinel|0")
+    br = kwarg(rs0, "bracket")
+    okr = VMIN is not None and VMAX is not None and br is not None and (eqx(br, f"({VMIN}, {VMAX})") or eqx(br, f"[{VMIN}, {VMAX}]")) and len(roots) == 1 and SOL is not None
     chk.ob("R05.3", fi.where(), "otherwise the root of the mismatch bracketed by (vmin, vmax) is returned", okr, key="sentinel|root")
-    okw = any(n(v) == "self.vMin" for v in defs.get("vmin", [])) and any(n(v).startswith("self.vJ -") for v in defs.get("vmax", []))
+    okw = VMIN is not None and VMAX is not None and len(_stores(fi, VMIN)) == 1
     chk.ob("R05.3", fi.where(), "the window is [vMin, vJ) (narrowed to where the shock front is ahead of the wall)", okw, key="window")
     # order: the 1-decision is taken before the 0-decision (a failed matching at vmax never yields 0)
     if ones and zeros:
-        first1 = min(o[2].lineno for o in ones if any(g_[1] and "shockTnuclDiffMax" in g_[0] for g_ in o[1])) if ok1 else 0
-        chk.ob("R05.3", fi.where(), "the top-of-window decision precedes the bottom-of-window decision", ok1 and first1 < zeros[0][2].lineno, key="order")
+        chk.ob("R05.3", fi.where(), "the top-of-window decision precedes the bottom-of-window decision",
+               bool(ok1) and all(_only_when(g, z, COND1, None, False, cx) for z in zeros) and (evmin is None or _only_when(g, evmin, COND1, None, False, cx)), key="order")
     # flag typestate: self.success = True before the first matching call, read after the vmax evaluation
-    stores = [x for x in g.nodes if isinstance(x, ast.Assign) and n(x.targets[0]) == "self.success"]
-    first_calls = [x for x in g.nodes if not isinstance(x, (ast.FunctionDef,)) and g.kind.get(x) != "def" and
-                   any(isinstance(c, ast.Call) and n(c.func) in ("shock", "shockTnuclDiff") for c in ast.walk(x) if not isinstance(x, ast.FunctionDef))]
-    okf = len(stores) == 1 and n(stores[0].value) == "True" and \
+    stores = [x for x in g.nodes if isinstance(x, ast.Assign) and eqx(x.targets[0], "self.success")]
+    first_calls = [x for x in g.nodes if g.kind.get(x) != "def" and not isinstance(x, ast.FunctionDef) and
+                   any(isinstance(c, ast.Call) and isinstance(c.func, ast.Name) and c.func.id in (SHOCK, DIFF) for c in ast.walk(x))]
+    okf = len(stores) == 1 and eqx(stores[0].value, "True") and bool(first_calls) and \
         all(g.must_pass(CFG.ENTRY, c_, lambda q: q in stores) for c_ in first_calls)
     chk.ob("R05.3", fi.where(), "self.success is reset to True before any matching is evaluated", okf, key="flag-reset")
     reads = [x for x in g.nodes if g.kind.get(x) != "def" and reads_of(x, "self.success")]
-    evalmax = [x for x in g.nodes if isinstance(x, ast.Assign) and n(x.targets[0]) == "shockTnuclDiffMax"]
-    okr2 = bool(reads) and bool(evalmax) and all(g.must_pass(CFG.ENTRY, r_, lambda q: q in evalmax) for r_ in reads)
+    evalmax = [evmax] if evmax is not None else [x for x in g.nodes if g.kind.get(x) == "test" and VMAX and has(x, f"{DIFF}({VMAX})")]
+    okr2 = bool(reads) and bool(evalmax) and all(r_ in evalmax or g.must_pass(CFG.ENTRY, r_, lambda q: q in evalmax) for r_ in reads)
     chk.ob("R05.3", fi.where(), "the flag is read after the evaluation at the top of the window", okr2, key="flag-read")
     chk.floor("R05.2", 2)
     chk.floor("R05.3", 8)
@@ -151,16 +227,29 @@ def r05_4(chk: Check):
     chk.touch(fm.name)
     rets = [r for r in own_nodes(fm.node) if isinstance(r, ast.Return)]
     chk.ob("R05.4", fm.where(), "WallGoManager.wallSpeedLTE returns hydrodynamics.findvwLTE()",
-           len(rets) == 1 and n(rets[0].value) == "self.hydrodynamics.findvwLTE()", key="manager")
+           len(rets) == 1 and eqx(rets[0].value, "self.hydrodynamics.findvwLTE()", Ctx(S, fm)), key="manager")
     fe = S.func("equationOfMotion:EOM.solveWall")
     chk.touch(fe.name)
-    a = [st for st in own_nodes(fe.node) if isinstance(st, ast.Assign) and n(st.targets[0]) == "wallVelocityLTE"]
-    ok = len(a) == 1 and n(a[0].value) == "self.hydrodynamics.findvwLTE()"
-    chk.ob("R05.4", fe.where(), "EOM.solveWall reports the LTE velocity of hydrodynamics.findvwLTE()", ok, key="eom")
+    ce = Ctx(S, fe)
+    lte = [c for c in ast.walk(fe.node) if isinstance(c, ast.Call) and isinstance(c.func, ast.Attribute) and c.func.attr == "findvwLTE"]
     uses = [c for c in calls_in(fe.node, "setWallVelocities")]
-    ok = bool(uses) and all((kwarg(c, "wallVelocityLTE", 2) is not None and n(kwarg(c, "wallVelocityLTE", 2)) == "wallVelocityLTE") for c in uses)
+    given = [kwarg(c, "wallVelocityLTE", 2) for c in uses]
+    ok = all(eqx(c, "self.hydrodynamics.findvwLTE()") for c in lte) and any(a is not None and eqx(a, "self.hydrodynamics.findvwLTE()", ce) for a in given)
+    chk.ob("R05.4", fe.where(), "EOM.solveWall reports the LTE velocity of hydrodynamics.findvwLTE()", ok, key="eom")
+    ok = bool(uses) and all(a is not None and eqx(a, "self.hydrodynamics.findvwLTE()", ce) for a in given)
     chk.ob("R05.4", fe.where(), "every setWallVelocities(...) in solveWall passes that value as the LTE velocity", ok, key="eom-report")
     chk.floor("R05.4", 3)
+
+
+def _rel(t):
+    """(kind, lhs, rhs) of a relational term with the smaller side first: LT / LE"""
+    if isinstance(t, sp.Basic) and isinstance(t, sp.core.function.AppliedUndef) and len(t.args) == 2:
+        k = t.func.__name__
+        if k in ("LT", "LE"):
+            return k, t.args[0], t.args[1]
+        if k in ("GT", "GE"):
+            return {"GT": "LT", "GE": "LE"}[k], t.args[1], t.args[0]
+    return None
 
 
 def r05_5(chk: Check):
@@ -168,35 +257,58 @@ def r05_5(chk: Check):
     ft = S.func(f"{TM}.findvwLTE")
     chk.touch(ft.name)
     ex = hydro_extractor(S)
-    table = []
-    for guards, st in walk_guarded(ft.node):
-        if isinstance(st, ast.Return):
-            table.append((n(st.value), [(n(t), pol) for t, pol in guards if not isinstance(t, tuple)]))
+    g = CFG(ft.node)
+    ct = Ctx(S, ft)
+    rets = [x for x in g.nodes if isinstance(x, ast.Return)]
     env = {"__module__": "hydrodynamicsTemplateModel", "__class__": "HydrodynamicsTemplateModel"}
-    zero = [t for t in table if t[0] in ("0.0", "0")]
-    one = [t for t in table if t[0] in ("1.0", "1")]
+    zero = [r for r in rets if _is_const(r.value, 0)]
+    one = [r for r in rets if _is_const(r.value, 1)]
+    rs = [c for c in calls_in(ft.node, "root_scalar")]
+    if len(rs) != 1 or not isinstance(kwarg(rs[0], "f", 0), ast.Name) or _local_func(S, ft, kwarg(rs[0], "f", 0).id) is None:
+        raise AnchorMissing("template findvwLTE: the root solve on a local shooting function not found")
+    SH = kwarg(rs[0], "f", 0).id
+    fs = _local_func(S, ft, SH)
     ok0 = False
+    shown0 = ""
     if len(zero) == 1:
-        gtxt = [g_ for g_, pol in zero[0][1] if pol]
-        if gtxt:
-            test = ast.parse(gtxt[-1], mode="eval").body
-            if isinstance(test, ast.BoolOp) and isinstance(test.op, ast.Or) and len(test.values) == 2:
-                a, b = (ex.expr(v, env) for v in test.values)
-                al, psi, mu, nu = (ex.sym(f"self.{k}") for k in ("alN", "psiN", "mu", "nu"))
-                ok0 = str(a) == str(sp.Function("LT")(al, (1 - psi) / 3)) and str(b) == str(sp.Function("LE")(al, (mu - nu) / (3 * mu)))
-    chk.ob("R05.5", ft.where(), "template: 0 is returned iff alpha_n < (1 - Psi_n)/3 or alpha_n <= (mu - nu)/(3 mu)", ok0, str(zero)[:200], key="template|0")
-    ok1 = len(one) == 1 and any(pol and g_.replace(" ", "") == "self.alN>self.maxAl(100)orshootingInLTE(self.vJ)<0" for g_, pol in one[0][1])
-    chk.ob("R05.5", ft.where(), "template: 1 is returned iff alpha_n > maxAl or the shooting residual at vJ is negative", ok1, str(one)[:200], key="template|1")
-    fs = S.func(f"{TM}.findvwLTE.shootingInLTE")
-    val = ex.single(fs)
+        al, psi, mu, nu = (ex.sym(f"self.{k}") for k in ("alN", "psiN", "mu", "nu"))
+        want = {("LT", al, (1 - psi) / 3), ("LE", al, (mu - nu) / (3 * mu))}
+        for t in g.nodes:
+            if g.kind.get(t) != "test" or not (isinstance(t, ast.BoolOp) and isinstance(t.op, ast.Or) and len(t.values) == 2):
+                continue
+            shown0 = n(t)
+            # the return is reached exactly through the true branch of this test
+            if not (g.must_pass(CFG.ENTRY, zero[0], lambda q: q is t) and not g.reaches(g.branch(t, False), zero[0], avoid=lambda q: q is t)):
+                continue
+            if any(g.reaches(g.branch(t, True), r, avoid=lambda q: q is t) for r in rets if r is not zero[0]):
+                continue
+            try:
+                got = [_rel(ex.expr(ct.resolve(v), dict(env))) for v in t.values]
+            except Undecided:
+                continue
+            if all(x is not None for x in got):
+                ok0 = all(any(x[0] == w[0] and is_zero(x[1] - w[1], chk.seed)[0] and is_zero(x[2] - w[2], chk.seed)[0] for x in got) for w in want) \
+                    and len({x[0] for x in got}) == 2
+    chk.ob("R05.5", ft.where(), "template: 0 is returned iff alpha_n < (1 - Psi_n)/3 or alpha_n <= (mu - nu)/(3 mu)", ok0, shown0[:200], key="template|0")
+    COND = f"self.alN > self.maxAl(100) or {SH}(self.vJ) < 0"
+    ok1 = len(one) == 1 and _only_when(g, one[0], COND, None, True, ct)
+    if ok1:
+        t1 = [t for t in g.nodes if g.kind.get(t) == "test" and _pol(t, COND, None, ct) is not None]
+        ok1 = len(t1) == 1 and all(not g.reaches(g.branch(t1[0], _pol(t1[0], COND, None, ct)), r, avoid=lambda q: q is t1[0]) for r in rets if r is not one[0])
+    chk.ob("R05.5", ft.where(), "template: 1 is returned iff alpha_n > maxAl or the shooting residual at vJ is negative", ok1, key="template|1")
     vw = ex.sym("vw")
+    val = ex.single(fs, {fs.params()[0]: vw})
     al = fn("solveAlpha")(vw)
     vm = sp.Min(ex.sym("self.cb"), vw)
     want = fn("_shooting")(vw, fn("getVp")(vm, al))
     ok, how = is_zero(val - want, chk.seed)
     chk.ob("R05.5", fs.where(), "template root function == _shooting(vw, getVp(min(cb, vw), solveAlpha(vw)))", ok, f"{val}; {how}", key="template|root-function", how=how)
-    rs = [c for c in calls_in(ft.node, "root_scalar")]
-    ok = len(rs) == 1 and n(rs[0].args[0]) == "shootingInLTE" and n(kwarg(rs[0], "bracket")).replace(" ", "") in ("[0.001,self.vJ]", "[1e-3,self.vJ]", "(0.001,self.vJ)")
+    b = kwarg(rs[0], "bracket")
+    SOLt = [st.targets[0].id for st in own_nodes(ft.node) if isinstance(st, ast.Assign) and st.value is rs[0] and isinstance(st.targets[0], ast.Name)]
+    other = [r for r in rets if r not in zero and r not in one]
+    ok = b is not None and (eqx(b, "[1e-3, self.vJ]", ct) or eqx(b, "(1e-3, self.vJ)", ct)) and len(other) == 1 and \
+        ((len(SOLt) == 1 and (eqx(other[0].value, f"float({SOLt[0]}.root)") or eqx(other[0].value, f"{SOLt[0]}.root")))
+         or (other[0].value is not None and any(y is rs[0] for y in ast.walk(other[0].value))))
     chk.ob("R05.5", ft.where(), "template: the LTE velocity is the bracketed root of that function on [1e-3, vJ]", ok, key="template|root")
     chk.floor("R05.5", 4)
 
